@@ -576,8 +576,13 @@ def stabilizer_measure(gs_stb, ps_stb, gs_obs, ps_obs, r):
         p = 0 # pointer
         ga[:] = 0
         pa = 0
+        for j in range(r, N): # an anticommuting active stabilizer must be the pivot (rank unchanged)
+            if acq(gs_stb[j], gs_obs[k]):
+                p = j
+                update = True
+                break
         for j in range(2*N):
-            if acq(gs_stb[j], gs_obs[k]): # find gs_stb[j] anticommute with gs_obs[k]
+            if acq(gs_stb[j], gs_obs[k]) and not (update and j == p): # find gs_stb[j] anticommute with gs_obs[k]
                 if update: # if gs_stb[j] is not the first anticommuting operator
                     # update gs_stb[j] to commute with gs_obs[k]
                     if j < N: # if gs_stb[j] is a stablizer, phase matters
